@@ -51,6 +51,29 @@ def mc(ctx):
             name="TokenLimit-mc", timeout=900, workers=W, heap="3g")
 
 
+def mc_monitor(ctx):
+    """Mechanism model of the fallback switch: the code as written must satisfy NoDeadFallback / NeverStuck /
+    Return for all interleavings of 3 callers, the monitor and Redis going down/up; the variant that stores
+    redisAlive := 0 before taking the lock must be rejected (vacuity guard)."""
+    K = dict(Callers='{"c1","c2","c3"}', Variant='"asis"')
+    cfg = core.render_cfg(spec="Spec", constants=K, invariants=["TypeOK", "MonitorMatchesFlag", "NoDeadFallback", "NeverStuck"],
+                          properties=["Return"])
+    ctx.tlc("TokenMonitorImpl", cfg, constants=K, name="TokenMonitorImpl-asis", timeout=600, workers=W, heap="2g")
+    K = dict(Callers='{"c1","c2"}', Variant='"hoisted"')
+    cfg = core.render_cfg(spec="Spec", constants=K, invariants=["TypeOK", "NoDeadFallback"])
+    r = ctx.tlc("TokenMonitorImpl", cfg, constants=K, name="TokenMonitorImpl-hoisted", timeout=600, workers=W, heap="2g",
+                allow_violation=True)
+    if r.violated != "NoDeadFallback":
+        raise core.Infra("vacuous mechanism model: the hoisted-store variant of startMonitor is not rejected (%s)" % r.violated)
+    ctx.notes["TokenMonitorImpl"] = "asis: NoDeadFallback, NeverStuck, Return hold (3 callers); hoisted-store variant rejected"
+
+
+def concurrent(ctx, binp):
+    cfgs = [dict(rounds=(20 if ctx.quick else 60), limiters=16, k=6, storm_ms=700)]
+    path, _ = ctx.write_cases("concurrent.ndjson", cfgs)
+    ctx.replay(PKG, OVERLAY, "^TestVerifC08Concurrent$", path, label="concurrent", shards=1, binp=binp, timeout=1200)
+
+
 def gen_period(ctx, name, configs, maxlen, maxadv, maxburst, simulate=None):
     K = dict(Keys='{"a","b"}', Configs=configs, MaxAdv=maxadv, MaxBurst=maxburst, MaxLen=maxlen)
     cfg = core.render_cfg(spec="GSpec", constants=K, invariants=["Emit"])
@@ -81,6 +104,7 @@ def one_per_prefix(cases):
 
 def run(ctx):
     mc(ctx)
+    mc_monitor(ctx)
     binp = ctx.go_build(PKG, OVERLAY, name="c08drv")
     ctx.assumptions += ["server clock never ahead of the caller clock (DESIGN 5)", "caller clock monotone",
                         "breaker coin forced to never-reject (H2)"]
@@ -120,6 +144,7 @@ def run(ctx):
         path, _ = ctx.write_cases(name + ".ndjson", cases)
         ctx.replay(PKG, OVERLAY, "^TestVerifC08Token$", path, label=name, shards=16, binp=binp)
     align(ctx, binp)
+    concurrent(ctx, binp)
 
 
 def align(ctx, binp):
@@ -135,6 +160,8 @@ def align(ctx, binp):
 def replay(ctx, rp):
     path, _ = ctx.write_cases("replay.ndjson", [rp["case"]])
     key = rp.get("key") or ""
+    if key.startswith("C08:token:no-return:concurrent"):
+        return concurrent(ctx, ctx.go_build(PKG, OVERLAY, name="c08drv"))
     if key.startswith("C08:period:align"):
         return align(ctx, ctx.go_build(PKG, OVERLAY, name="c08drv"))
     test = "^TestVerifC08Period$" if key.startswith("C08:period") else "^TestVerifC08Token$"
